@@ -21,7 +21,7 @@ NA = {
     "C09": "four IR passes over BTreeMap<Tid,Term<Sub>> with HashSet<Tid> and string-built identifiers; the property is the joint invariant after all passes on arbitrary malformed input, not a per-call contract",
     "C10": "behavioural equivalence under five rewriting passes needs an operational IR semantics and a simulation proof; the one per-call piece (Expression::substitute_trivial_operations) ICEs Verus (`if let .. = self { *self = .. }`) and a single Kani template did not finish in 10 min",
     "C11": "lifting equivalence w.r.t. the P-Code reference semantics is translation validation of a deserialised JSON program with register aliasing; no function-level contract carries it",
-    "C12": "quantifies over programs and all normalisation passes; its per-call core is the same rewriter as C10 plus sub-register code over String-named registers",
+    "C12": "quantifies over programs and ALL lifting and normalisation passes: 'every expression of the fully normalized program is well-sized' needs an establishment argument for the lifted IR plus preservation by every pass. Preservation is proved for two passes as a by-product of other units (the expression rewriter, unit exprsubst under C10; the sub-register substitution, unit subreg under C11: both keep well-sizedness and byte size) and Expression::bytesize is proved in unit bitvector, but establishment (JSON deserialisation, mnemonic mapping), expression propagation, stack alignment substitution and the Def / Jmp level clauses (assignment size, pointer-sized addresses) are under no contract; claiming C12 on two of five steps would overstate",
     "C13": "soundness of the pointer-inference fixpoint w.r.t. a concrete semantics is a whole-analysis proof (states of BTreeMaps of abstract objects, widening, interprocedural flow); C07 covers the solver it runs on, not its transfer functions",
     "C14": "same for the function-signature fixpoint; 'on some path' is CFG reachability over the whole program",
     "C15": "if-and-only-if characterisation of a taint fixpoint's warnings by CFG paths: whole-analysis, whole-program",
